@@ -20,8 +20,8 @@ from ..core import runner, snapshot, opwrap
 ID = 'C02'
 
 BOUNDS = {
-    'quick': dict(ROUNDS=2, ARITY3=6, NEW_PER_ROUND=25),
-    'thorough': dict(ROUNDS=3, ARITY3=14, NEW_PER_ROUND=200),
+    'quick': dict(ROUNDS=2, ARITY3=6, NEW_PER_ROUND=30),
+    'thorough': dict(ROUNDS=4, ARITY3=12, NEW_PER_ROUND=120),
 }
 
 FORBIDDEN_PREFIX = ('os.', 'subprocess.', 'socket.', 'shutil.', 'ctypes.', 'urllib.', 'http.', 'ftplib.', 'mmap.', 'marshal.',
@@ -66,7 +66,23 @@ LAMBDA_ARGS = ['v => v', 'v => 1', '(a, b) => a', 'v => [v]', '(a, b) => {"k": a
 REDUCED3 = ['none', 'd1', 'sab', 'sattr', 'sfmt', 'l12', 'lt', 'da', 'dn', 't', 'true', 's12', 'lab', 'sre']
 
 
+def coarse(v):
+    if v is None or isinstance(v, bool):
+        return 'scalar'
+    if isinstance(v, (int, float, decimal.Decimal)):
+        return 'num'
+    if isinstance(v, str):
+        return 'str'
+    if isinstance(v, (list, tuple, dict, slice)):
+        return type(v).__name__
+    if callable(v):
+        return 'callable'
+    return 'OTHER:' + type(v).__name__
+
+
 def shape(v, depth=0):
+    """Abstraction that decides whether a result is a NEW shape: scalars by class (strings by the classes that matter
+    for confinement), containers by kind + emptiness + the set of coarse kinds of their elements (one level)."""
     if v is None or isinstance(v, bool):
         return repr(v)
     if isinstance(v, (int, float, decimal.Decimal)):
@@ -82,13 +98,9 @@ def shape(v, depth=0):
             return 'str:format'
         return 'str:ws' if ' ' in v or '\n' in v else 'str'
     if isinstance(v, (list, tuple)):
-        if depth >= 3:
-            return type(v).__name__
-        return f'{type(v).__name__}[' + ','.join(sorted({shape(x, depth + 1) for x in v[:6]})) + (']' if v else 'empty]')
+        return f'{type(v).__name__}[' + ','.join(sorted({coarse(x) for x in v[:8]})) + (']' if v else 'empty]')
     if isinstance(v, dict):
-        if depth >= 3:
-            return 'dict'
-        return 'dict{' + ','.join(sorted({shape(x, depth + 1) for x in list(v.values())[:6]})) + ('}' if v else 'empty}')
+        return 'dict{' + ','.join(sorted({coarse(x) for x in list(v.values())[:8]})) + ('}' if v else 'empty}')
     if isinstance(v, slice):
         return 'slice'
     if callable(v):
@@ -418,10 +430,12 @@ def main(tier, seed, t0):
                  '0..2 over the whole pool and arity 3 over a reduced pool, three call syntaxes; %d operator / index / slice / assignment / '
                  'lambda forms over all pairs; 11 first-class-builtin forms per builtin; every identifier that is an attribute of a plain '
                  'type or a Python builtin but NOT in the table (%d names) as variable, value and call in all syntaxes on 12 first '
-                 'arguments; %d failing sources (audit events on error paths); %d round(s); new result shapes (type tree to depth 3 with '
+                 'arguments; %d failing sources (audit events on error paths); %d round(s); new result shapes (container kind + set of coarse element kinds, with '
                  'string / number classes) join the pool (cap %d per round). distinct_nontrivial = distinct result shapes.'
                  % (len(sd), len(fns), len(OPERATOR_FORMS), len(foreign_names()), len(FAILING_SOURCES), rounds, b['NEW_PER_ROUND'])),
-        'exhaustive': True,
+        # complete for the rounds run unless the per-round cap on new shapes was hit (then the dropped shapes were not fed back)
+        'exhaustive': not n.get('new_shapes_dropped_by_cap'),
+        'caps_hit': {'new_shapes_dropped_by_cap': n.get('new_shapes_dropped_by_cap', 0)},
         'fixpoint_reached': bool(fix and not n.get('new_shapes_dropped_by_cap')),
         'rounds': rounds,
         'bounds': b,
